@@ -230,6 +230,14 @@ def hreadCommitted (s : Sys) (h : Nat) (oid : Nat) : Option (Nat × Data) :=
 
 def setInst (s : Sys) (i : Nat) (x : Inst) : Sys := { s with insts := upd s.insts i x }
 
+/-- `tpc_abort` before the finish section: the commit lock is dropped; the tid was never shown to
+    anybody and may be issued again (MappingStorage derives the next tid from the COMMITTED
+    transactions only) -/
+def dropInfl (s : Sys) : Sys :=
+  match s.infl with
+  | some f => { s with infl := none, next := f.tid }
+  | none => s
+
 def dropOids (c : Nat → Option (Nat × Data)) (l : List Nat) : Nat → Option (Nat × Data) :=
   fun o => if l.contains o then none else c o
 
@@ -286,7 +294,7 @@ def step (s : Sys) : Act → Res
     if i < s.n ∧ inFinishBy s i = false then
       let x := s.insts i
       let s' := setInst s i { x with pending := [], cache := dropOids x.cache (oidsOf x.pending) }
-      .ok (if committing s i then { s' with infl := none } else s')
+      .ok (if committing s i then dropInfl s' else s')
     else .blocked
   | .begin c t =>
     if s.infl = none ∧ s.next ≤ t ∧ committerOk s c = true then
@@ -310,7 +318,7 @@ def step (s : Sys) : Act → Res
   | .extAbort =>
     match s.infl with
     | some f =>
-      if f.who = none ∧ f.phase ≠ .finishing then .ok { s with infl := none } else .blocked
+      if f.who = none ∧ f.phase ≠ .finishing then .ok (dropInfl s) else .blocked
     | none => .blocked
   | .finishEnter =>
     match s.infl with
